@@ -342,13 +342,20 @@ void _vnacal_teardown_parameter_collection(vnacal_t *vcp)
     for (int i = vprmcp->vprmc_allocation - 1; i >= 0; --i) {
 	vnacal_parameter_t *vpmrp = vprmcp->vprmc_vector[i];
 
-	if (vpmrp != NULL) {
-	    assert(!vpmrp->vpmr_deleted);
+	/*
+	 * A parameter that is referenced by an unknown or correlated
+	 * parameter stays in the table, possibly already deleted,
+	 * until its last referrer goes away; the referrer can sit at a
+	 * lower index (slot reuse).  Drop our own reference on every
+	 * parameter that still has it; the rest follow when their
+	 * referrers are released.
+	 */
+	if (vpmrp != NULL && !vpmrp->vpmr_deleted) {
 	    vpmrp->vpmr_deleted = true;
 	    _vnacal_release_parameter(vpmrp);
-	    assert(vprmcp->vprmc_vector[i] == NULL);
 	}
     }
+    assert(vprmcp->vprmc_count == 0);
     free((void *)vprmcp->vprmc_vector);
     (void)memset((void *)&vcp->vc_parameter_collection, 0,
 	    sizeof(vcp->vc_parameter_collection));
